@@ -53,6 +53,30 @@ mod proofs {
         assert!(got == lex(&enc(a), &enc(b)));
         assert!((got == Ordering::Equal) == (a == b));
     }
+    /// C15 / A-INTEGER: for ALL integers in CBOR's range [-2^64, 2^64-1] the checked narrowing the crate uses
+    /// (`i64::try_from(Integer)`, `u64::try_from(Integer)`) returns exactly the value when it fits and an error otherwise.
+    /// (A harness through `Value`-level decoders is intractable for CBMC: 15 min, no result; the decoders are covered by Verus.)
+    #[kani::proof]
+    fn int_narrowing() {
+        use ciborium::value::Integer; use core::convert::{TryFrom, TryInto};
+        let x: i128 = kani::any();
+        kani::assume(x >= -(1i128 << 64) && x < (1i128 << 64));
+        let i = Integer::try_from(x).unwrap();
+        assert!(i128::from(i) == x);
+        let r: Result<u64, _> = i.try_into();
+        if x >= 0 { assert!(r.is_ok() && r.unwrap() as i128 == x); } else { assert!(r.is_err()); }
+        let r2: Result<i64, _> = i.try_into();
+        if x >= i64::MIN as i128 && x <= i64::MAX as i128 { assert!(r2.is_ok() && r2.unwrap() as i128 == x); } else { assert!(r2.is_err()); }
+    }
+    /// C15 / A-INTEGER: widening on encode keeps the value
+    #[kani::proof]
+    fn int_widening() {
+        use ciborium::value::Integer;
+        let a: i64 = kani::any();
+        let b: u64 = kani::any();
+        assert!(i128::from(Integer::from(a)) == a as i128);
+        assert!(i128::from(Integer::from(b)) == b as i128);
+    }
     /// C17: private-use predicates hold exactly below -65536, for ALL i64
     #[kani::proof]
     fn private_ranges() {
